@@ -397,12 +397,12 @@ func (tr *Tr) subRefOfLoc(l Loc) string {
 	}
 	t := "(" + fn + " " + l.Ref + ")"
 	// an embedded sub-object is allocated together with its owner: for every allocation counter value that frames
-	// refer to, "owner allocated before" implies "sub-object allocated before" (instantiated per known counter)
+	// refer to, "owner allocated before" is equivalent to "sub-object allocated before" (instantiated per known counter)
 	if !strings.Contains(l.Ref, "?") {
 		if _, known := tr.subTerms[t]; !known {
 			tr.subTerms[t] = l.Ref
 			for _, top := range tr.frameTops {
-				tr.sc.fact(fmt.Sprintf("(=> (< %s %s) (< %s %s))", l.Ref, top, t, top))
+				tr.sc.fact(fmt.Sprintf("(= (< %s %s) (< %s %s))", l.Ref, top, t, top))
 			}
 		}
 	}
@@ -418,7 +418,7 @@ func (tr *Tr) noteFrameTop(top string) {
 	}
 	tr.frameTops = append(tr.frameTops, top)
 	for _, t := range sortedKeys(tr.subTerms) {
-		tr.sc.fact(fmt.Sprintf("(=> (< %s %s) (< %s %s))", tr.subTerms[t], top, t, top))
+		tr.sc.fact(fmt.Sprintf("(= (< %s %s) (< %s %s))", tr.subTerms[t], top, t, top))
 	}
 }
 
